@@ -1,5 +1,6 @@
 import PartituraModel.Wire
 import PartituraModel.Model.Pedal
+import PartituraModel.Model.PedalDict
 
 open Wire Model Model.Pedal
 
@@ -25,8 +26,107 @@ def fmtBack (ns : Note × Rat) : String :=
   fmtTuple [fmtInt ns.1.pitch, fmtInt ns.1.vel, fmtRat ns.1.on, fmtRat ns.1.off, fmtRat ns.2,
             fmtInt ns.1.track, fmtInt ns.1.chan]
 
+def pRaw : P RawNote := do
+  let id ← opt str; let p ← opt int; let mp ← opt int; let on ← opt rat; let off ← opt rat; let so ← opt rat
+  let v ← opt int; let tr ← opt int; let ch ← opt int; let ot ← opt int; let oft ← opt int
+  pure { id := id, pitch := p, midiPitch := mp, on := on, off := off, soundOff := so, vel := v, track := tr,
+         chan := ch, onTick := ot, offTick := oft }
+
+def pSetOp : P SetOp := do
+  let k ← tok
+  match k with
+  | "id" => do let v ← str; pure (.id v)
+  | "pitch" => do let v ← int; pure (.pitch v)
+  | "note_on" => do let v ← rat; pure (.noteOn v)
+  | "note_off" => do let v ← rat; pure (.noteOff v)
+  | "sound_off" => do let v ← rat; pure (.soundOff v)
+  | "velocity" => do let v ← int; pure (.velocity v)
+  | "track" => do let v ← int; pure (.track v)
+  | "channel" => do let v ← int; pure (.channel v)
+  | "note_on_tick" => do let v ← int; pure (.noteOnTick v)
+  | "note_off_tick" => do let v ← int; pure (.noteOffTick v)
+  | "midi_pitch" => do let v ← int; pure (.midiPitch v)
+  | "other" => pure .other
+  | _ => P.fail
+
+def pOp : P Op := do
+  let k ← tok
+  match k with
+  | "T" => do let t ← int; pure (.thr t)
+  | "S" => do let i ← nat; let o ← pSetOp; pure (.set i o)
+  | "A" => do let r ← pRaw; pure (.append r)
+  | _ => P.fail
+
+def fmtPNote (n : PNote) : String :=
+  fmtTuple [idText n.id, fmtInt n.pitch, fmtInt n.midiPitch, fmtRat n.on, fmtRat n.off, fmtRat n.soundOff,
+            fmtInt n.vel, fmtInt n.track, fmtInt n.chan, fmtOpt fmtInt n.onTick, fmtOpt fmtInt n.offTick]
+
+def fmtView (p : PPart) : String := fmtList fmtPNote p.notes
+
+def fmtObs : Obs → String
+  | .ok => "ok" | .keyErr => "K" | .valErr => "V" | .idxErr => "I" | .fail => "F"
+
+def fmtARow (r : ARow) : String := fmtTuple [r.id, fmtRow r.row]
+
+def lastPart (p : PPart) (l : List (PPart × Obs)) : PPart :=
+  match l.getLast? with
+  | some r => r.1
+  | none => p
+
+structure PerfPart where
+  thr : Int
+  mpq : Nat
+  ppq : Nat
+  notes : List RawNote
+  controls : List Control
+  programs : List (Option Int)
+
+def pPerfPart : P PerfPart := do
+  let thr ← int; let mpq ← nat; let ppq ← nat; let ns ← list pRaw; let cs ← list pControl
+  let ps ← list (opt int)
+  pure { thr := thr, mpq := mpq, ppq := ppq, notes := ns, controls := cs, programs := ps }
+
+/-- `Performance(parts)` (track numbers made unique) followed by `.note_array()` -/
+def perfNoteArray (uid : Bool) (pps : List PerfPart) : Option String :=
+  (mapM' (fun (pp : PerfPart) => if pp.mpq = 0 then none else buildRaw pp.notes pp.controls pp.thr) pps).bind fun built =>
+    let pts : List PartTracks := (built.zip pps).map fun bp =>
+      { notes := bp.1.notes.map (·.track), controls := bp.2.controls.map (·.track), programs := bp.2.programs }
+    (sanitizeSorted pts).bind fun san =>
+      let rows := ((built.zip pps).zip san).map fun x =>
+        partRows x.1.2.mpq x.1.2.ppq { x.1.1 with notes := storeTracks x.1.1.notes x.2.1 }
+      (perfRows uid rows).map fun r => fmtTuple [fmtNat (numTracks pts), fmtList fmtARow r]
+
 def handle (ts : List String) : String :=
   match ts with
+  | "hist" :: rest =>
+    -- construction from note dictionaries, then a history of statements; finally note_array()
+    orErr <| (run (do let thr ← int; let mpq ← nat; let ppq ← nat; let ns ← list pRaw; let cs ← list pControl
+                      let ops ← list pOp; pure (thr, mpq, ppq, ns, cs, ops)) rest).bind
+      fun (thr, mpq, ppq, ns, cs, ops) =>
+        if mpq = 0 then none else (buildRaw ns cs thr).map fun p =>
+          let r := runOps p ops
+          fmtTuple [fmtView p, fmtList (fun (x : PPart × Obs) => fmtTuple [fmtObs x.2, fmtView x.1]) r,
+                    fmtList fmtARow (partRows mpq ppq (lastPart p r))]
+  | "fnav" :: rest =>
+    -- from_note_array of note_array() restricted to some columns; the rebuilt part and its own note_array()
+    orErr <| (run (do let thr ← int; let mpq ← nat; let ppq ← nat; let ns ← list pRaw; let cs ← list pControl
+                      let a ← bool; let b ← bool; let c ← bool; let d ← bool; let e ← bool
+                      pure (thr, mpq, ppq, ns, cs, ({ sec := a, vel := b, hasId := c, track := d, chan := e } : ArrFields))) rest).bind
+      fun (thr, mpq, ppq, ns, cs, f) =>
+        if mpq = 0 then none else (buildRaw ns cs thr).bind fun p =>
+          (fromArray f (partRows mpq ppq p)).map fun q =>
+            fmtTuple [fmtView q, fmtList fmtARow (partRows defaultMpq defaultPpq q)]
+  | "perf" :: rest =>
+    orErr <| (run (do let uid ← bool; let pps ← list pPerfPart; pure (uid, pps)) rest).bind
+      fun (uid, pps) => perfNoteArray uid pps
+  | "ssorted" :: rest =>
+    -- np.searchsorted(a, x) by numpy's binary search and by the list model
+    orErr <| (run (do let a ← list rat; let x ← rat; pure (a, x)) rest).map fun (a, x) =>
+      fmtTuple [fmtNat (npSearchsorted a x), fmtNat (searchsortedLeft a x)]
+  | "asort" :: rest =>
+    -- np.argsort(keys, kind="stable")
+    orErr <| (run (list rat) rest).map fun ks =>
+      fmtList fmtNat ((sortBy (fun m : Rat × Nat => m.1) ks.zipIdx).map (·.2))
   | "so" :: rest =>
     -- sound_off of every note after construction
     orErr <| (run (do let thr ← int; let ns ← list pNote; let cs ← list pControl; pure (thr, ns, cs)) rest).bind
@@ -51,7 +151,7 @@ def handle (ts : List String) : String :=
           (fromRows (noteRows mpq ppq p)).map fun q => fmtList fmtBack (q.notes.zip q.sound)
   | "tracks" :: rest =>
     orErr <| (run (list pPartTracks) rest).bind fun parts =>
-      (sanitize parts).map fun r =>
+      (sanitizeSorted parts).map fun r =>
         fmtTuple [fmtNat (numTracks parts), fmtList fmtNat (parts.map partNumTracks),
                   fmtList (fun (x : List Nat × List Nat × List Nat) =>
                     fmtTuple [fmtList fmtNat x.1, fmtList fmtNat x.2.1, fmtList fmtNat x.2.2]) r]
